@@ -6,6 +6,7 @@
     every reachable state (C08_wf_reachable). *)
 From Coq Require Import List ZArith NArith Bool.
 From Kardia Require Import C08.Model C08.ProofsEqv C08.ProofsInv C08.ProofsUndo C08.ProofsRevert C08.Proofs C08.ProofsCoh.
+From Kardia Require Import C08.ModelSnap C08.ModelSnapHeap C08.ProofsSnap C08.ProofsSnapDB.
 Import ListNotations.
 Local Open Scope N_scope.
 
@@ -113,3 +114,123 @@ Theorem C08_copy_midtx_refuted :
   is_some (snd (commit true (copy midtx_s)) 1) = true /\ is_some (snd (commit true midtx_s) 1) = false.
 Proof. exact copy_midtx_refuted. Qed.
 Print Assumptions C08_copy_midtx_refuted.
+
+(** ------------------------------------------------------------------------------------------------
+    Reading committed state back through the snapshot layers (ModelSnap.v: diff layers over the disk
+    layer, kai/state/snapshot/{difflayer,disklayer}.go, Tree.Update/Cap/diffToDisk).
+    [built s va vs]: the chain [s] was made from an empty disk layer by any sequence of Tree.Update
+    (a block's destruct set, accounts, slots), Tree.Cap (flatten / diffToDisk, any depth) and reads;
+    [va]/[vs] is the overlay of the blocks' data in order. *)
+
+(** every account and every slot read through the chain — whatever the bloom filter contains beyond
+    what was added to it — is the overlay of the blocks written so far *)
+Theorem C08_snapshot_layers_read_content : forall s va vs, built s va vs -> forall fp a k,
+  snd (snap_account fp s a) = va a /\ snd (snap_storage fp s a k) = vs a k.
+Proof. exact built_read. Qed.
+Print Assumptions C08_snapshot_layers_read_content.
+
+(** the hypothesis is satisfiable: two blocks, the second destructs what the first created, capped to depth 1 and to disk *)
+Example C08_snapshot_layers_example :
+  exists va vs, built (snap_cap (snap_cap (snap_update (snap_update (mkSnap nil (empty_disk 0)) 1 (fun _ => false)
+                   (fupd fempty 1 empty_account) (fun a => if N.eqb a 1 then fupd fempty 0 42 else fempty))
+                   2 (fun a => N.eqb a 1) fempty (fun _ => fempty)) 1) 0) va vs /\ vs 1 0 = 0.
+Proof. eexists; eexists; split; [repeat constructor|reflexivity]. Qed.
+Print Assumptions C08_snapshot_layers_example.
+
+(** false positives of the bloom filter never change an answer (nor the cache the read fills) *)
+Theorem C08_snapshot_bloom_irrelevant : forall fp1 fp2 s a k,
+  snap_account fp1 s a = snap_account fp2 s a /\ snap_storage fp1 s a k = snap_storage fp2 s a k.
+Proof. exact bloom_irrelevant. Qed.
+Print Assumptions C08_snapshot_bloom_irrelevant.
+
+(** a read returns what the chain stands for, keeps the clean cache in step with the database and
+    changes nothing else *)
+Theorem C08_snapshot_read_spec : forall fp s a k, coherent (sn_disk s) ->
+  (snd (snap_account fp s a) = view_acc s a /\
+   coherent (sn_disk (fst (snap_account fp s a))) /\ same_snap s (fst (snap_account fp s a))) /\
+  (snd (snap_storage fp s a k) = view_sto s a k /\
+   coherent (sn_disk (fst (snap_storage fp s a k))) /\ same_snap s (fst (snap_storage fp s a k))).
+Proof. intros fp s a k H; split; [exact (snap_account_spec fp s a H)|exact (snap_storage_spec fp s a k H)]. Qed.
+Print Assumptions C08_snapshot_read_spec.
+
+(** Tree.Cap with any number of layers (flatten of the layers below, accumulator kept in memory or
+    merged onto disk by diffToDisk) changes no account and no slot of the capped root *)
+Theorem C08_snapshot_cap_preserves : forall s layers, coherent (sn_disk s) ->
+  coherent (sn_disk (snap_cap s layers)) /\
+  (forall a, view_acc (snap_cap s layers) a = view_acc s a) /\
+  (forall a k, view_sto (snap_cap s layers) a k = view_sto s a k).
+Proof. exact snap_cap_spec. Qed.
+Print Assumptions C08_snapshot_cap_preserves.
+
+(** the layer Cap puts into the tree for the flattened root (accumulator or new disk layer) stands
+    for exactly what the layers it replaces stood for *)
+Theorem C08_snapshot_cap_registrations : forall s layers r t, coherent (sn_disk s) -> In (r, t) (snap_cap_regs s layers) ->
+  coherent (sn_disk t) /\
+  (forall a, view_acc t a = over_acc (below s layers) (dk_acc (sn_disk s)) a) /\
+  (forall a k, view_sto t a k = over_sto (below s layers) (dk_sto (sn_disk s)) a k).
+Proof. exact snap_cap_regs_spec. Qed.
+Print Assumptions C08_snapshot_cap_registrations.
+
+(** REFUTED (a variant, not the code): diffLayer.Storage without the probe for the account's destruct
+    marker returns the old incarnation's slot from the disk layer (42) where the chain stands for 0 —
+    the probe that AccountRLP and Storage both make is necessary *)
+Theorem C08_storage_without_destruct_probe_refuted :
+  coherent (sn_disk probe_snap) /\
+  view_sto probe_snap 1 0 = 0 /\
+  snd (snap_storage (fun _ => false) probe_snap 1 0) = 0 /\
+  snd (snap_storage_noprobe (fun _ => false) probe_snap 1 0) = 42.
+Proof. exact probe_needed. Qed.
+Print Assumptions C08_storage_without_destruct_probe_refuted.
+
+(** REFUTED as stated in the property text (known finding, inherited from go-ethereum): with the
+    sharing Go's flatten has (ModelSnapHeap.v) the layer object of block b3, which is never marked
+    stale, answers 0 for slot 0 of contract 1 before Cap and 1 — block b4's value — after Cap has
+    flattened b2..b4: a StateDB still attached to it reads what was NOT written at its root *)
+Theorem C08_flatten_aliasing_refuted :
+  h_storage 10 alias_heap 1 1 0 = Some 0 /\
+  let h' := fst (h_flatten 10 alias_heap 2) in
+  option_map hl_stale (nth_error (hh_layers h') 1) = Some false /\
+  h_storage 10 h' 1 1 0 = Some 1.
+Proof. exact flatten_aliasing. Qed.
+Print Assumptions C08_flatten_aliasing_refuted.
+
+(** ------------------------------------------------------------------------------------------------
+    The StateDB's own snapshot data (snapAccounts, snapStorage, and the copies kept in the journal's
+    resetObjectChange entries), [sstep] = every StateDB operation with that bookkeeping. *)
+
+(** the bookkeeping never changes the StateDB proper: states and answers are those of [step] *)
+Theorem C08_snapdata_projection : forall ss o,
+  ss_st (fst (sstep ss o)) = fst (step (ss_st ss) o) /\ snd (sstep ss o) = snd (step (ss_st ss) o).
+Proof. exact sstep_projects. Qed.
+Print Assumptions C08_snapdata_projection.
+
+(** a StateDB that is not attached to a snapshot layer keeps no snapshot data *)
+Theorem C08_snapdata_detached : forall ss o, ss_snap ss = None ->
+  ss_snap (fst (sstep ss o)) = None /\
+  (ss_acc (fst (sstep ss o)) = ss_acc ss /\ ss_sto (fst (sstep ss o)) = ss_sto ss /\ ss_saved (fst (sstep ss o)) = ss_saved ss
+   \/ exists de, o = OCommit de).
+Proof. exact detached_keeps_nothing. Qed.
+Print Assumptions C08_snapdata_detached.
+
+(** RevertToSnapshot(id) restores snapAccounts, snapStorage and the saved blobs to their values at
+    Snapshot(), for arbitrary operation sequences in between (nested snapshots and reverts,
+    createObject over existing objects, ...) whenever id is still valid: what Commit later hands to
+    the snapshot tree does not depend on reverted operations *)
+Theorem C08_snapdata_revert_exact : forall ss0 p0 ops,
+  sreachable ss0 -> ss_snap ss0 = Some p0 ->
+  let id := st_nextrev (ss_st ss0) in
+  let ssN := srun ops (fst (sstep ss0 OSnapshot)) in
+  In id (map fst (st_revs (ss_st ssN))) ->
+  ceqv (fst (sstep ssN (ORevert id))) ss0.
+Proof. exact snap_revert_exact_reachable. Qed.
+Print Assumptions C08_snapdata_revert_exact.
+
+(** the hypotheses are satisfiable, non-vacuously: the reverted segment deletes snapshot data that the revert brings back *)
+Example C08_snapdata_revert_exact_example :
+  sreachable sexample_ss0 /\ ss_snap sexample_ss0 = Some 0 /\
+  is_some (ss_acc sexample_ss0 1) = true /\ ss_sto sexample_ss0 1 0 = Some 7 /\
+  let ssN := srun sexample_ops (fst (sstep sexample_ss0 OSnapshot)) in
+  In (st_nextrev (ss_st sexample_ss0)) (map fst (st_revs (ss_st ssN))) /\
+  is_some (ss_acc ssN 1) = false /\ ss_sto ssN 1 0 = None.
+Proof. exact sexample_valid. Qed.
+Print Assumptions C08_snapdata_revert_exact_example.
